@@ -172,6 +172,7 @@ Definition dec_tev (nt : net) (t : tree) : option tev :=
   | T [L 9; L n] => n <- nd n ;; Some (TShutEnd n)
   | T [L 10; c] => c <- getB c ;; Some (TDone c)
   | T [L 11; L n] => Some (TSetup (match nd n with Some i => i | None => length nt end))
+  | T [L 12; k] => k <- getNat k ;; Some (TPrepFail k)
   | _ => None
   end.
 Definition dec_counters (t : tree) : option counters :=
@@ -359,7 +360,7 @@ Definition judge_setupfail (ti tobs : tree) : tree :=
           if negb (in_domain_e1 cfgs) || (tmo <? 2)
              || match phases with T [_; _; L 1] :: _ => true | [] => true | _ => false end then out_of_domain else
           let nt := flatten cfgs in
-          match mapM (dec_tev nt) (filter (fun t => match t with T [L 12; _] => false | _ => true end) trace) with
+          match mapM (dec_tev nt) trace with
           | Some tr =>
               let p := rev tr in
               verdict (diff_if (tree_eqb (enc_net nt) netdump) 1) (map enc_pc (flat_map also_c16 (trace_ok nt p))) (enc_net nt)
